@@ -250,12 +250,58 @@ def generate(run_seed, tier):
         mcfg['ngauss'] = c.randint(2, 5)
         if fam == 'transmission':
             mcfg['new_path'] = c.random() < 0.3
+        if cfg['part'] == 'reload' and c.random() < 0.4:
+            # an explicit trace gas without opacity data (inactive)
+            mcfg['molecules'].append({'name': c.choice(['N2', 'O2', 'Ar']),
+                                      'mix': 10 ** c.uniform(-4, -1),
+                                      'inactive': True})
+        if cfg['part'] == 'reload':
+            # the other built-in gas and temperature profile types
+            for m in mcfg['molecules']:
+                r = c.random()
+                if r < 0.15:
+                    m['gas'] = {'kind': 'twopoint',
+                                'surface': 10 ** c.uniform(-7, -3),
+                                'top': 10 ** c.uniform(-9, -5)}
+                elif r < 0.30:
+                    m['gas'] = {'kind': 'array', 'values': [
+                        10 ** c.uniform(-8, -3)
+                        for _ in range(c.randint(2, 5))]}
+                elif r < 0.40 and m['name'] == 'H2O':
+                    m['gas'] = {'kind': 'power', 'profile_type': 'auto'}
+                elif r < 0.46:
+                    m['gas'] = {'kind': 'power', 'profile_type': 'auto',
+                                'surface': 10 ** c.uniform(-6, -3),
+                                'alpha': c.uniform(0.5, 2.5),
+                                'beta': 10 ** c.uniform(4, 4.7),
+                                'gamma': c.uniform(5, 25)}
+            r = c.random()
+            if r < 0.15:
+                mcfg['tp'] = {'kind': 'rodgers', 'layers': [
+                    c.uniform(600, 2000) for _ in range(mcfg['nlayers'])],
+                    'corr': c.uniform(2, 8)}
+            elif r < 0.30:
+                vals = sorted([c.uniform(600, 2000)
+                               for _ in range(c.randint(2, 5))], reverse=True)
+                mcfg['tp'] = {'kind': 'tarray', 'values': vals}
+                if c.random() < 0.5:
+                    mcfg['tp']['p_points'] = sorted(
+                        [10 ** c.uniform(0, 6) for _ in vals], reverse=True)
         cfg['model'] = mcfg
         cfg['obs'] = S.gen_obs(c, mcfg)
     if cfg['part'] == 'spectrum':
-        for _ in range(o.randint(1, 3)):
-            ops.append(['store_spectrum', o.choice(['flux', 'simple', 'native']),
-                        o.choice([1, 3, 6]), 'Spectra%d' % len(ops)])
+        # one binner object per kind serves every spectrum of the run (as the
+        # observation's binner does in a retrieval); some results are computed
+        # on sub-ranges of the native grid (same number of points, other
+        # spacing)
+        nsub = o.randint(5, max(5, mcfg['opac']['ngrid'] - 4))
+        for _ in range(o.randint(1, 4)):
+            sub = None
+            if o.random() < 0.5:
+                sub = [o.randint(0, mcfg['opac']['ngrid'] - nsub), nsub]
+            ops.append(['store_spectrum', o.choice(['flux', 'flux', 'simple',
+                                                    'native']),
+                        o.choice([1, 3, 6]), 'Spectra%d' % len(ops), sub])
             if o.random() < 0.4:
                 ops += [['close'], ['open', 'a']]
     elif cfg['part'] == 'reload':
@@ -505,6 +551,7 @@ def execute(case, keep_text=False):
         groups = {}
         model = None
         obs = None
+        binners = {}
         if has_model:
             model = R.build_model(cfg['model'], install=False)
             obs = S.build_obs(cfg['obs'])
@@ -533,8 +580,15 @@ def execute(case, keep_text=False):
                     continue
                 p.store_dictionary(materialise(op[3]), group_name=op[2])
             elif k == 'store_spectrum':
-                binner = make_binner(op[1], obs)
-                res = model.model()
+                if op[1] not in binners:
+                    binners[op[1]] = make_binner(op[1], obs)
+                binner = binners[op[1]]
+                sub = op[4] if len(op) > 4 else None
+                if sub:
+                    g = S.native_grid(cfg['model'])
+                    res = model.model(wngrid=g[sub[0]:sub[0] + sub[1]])
+                else:
+                    res = model.model()
                 spec = binner.generate_spectrum_output(
                     res, output_size=OutputSize(op[2]))
                 if r == 0:
@@ -719,10 +773,20 @@ def check_spectrum_group(viol, out, g, bkind, size, res, cfg):
     obs = S.build_obs(cfg['obs'])
     if bkind == 'flux':
         fresh = obs.create_binner()
-        rb = np.array(refs.ref_bin(list(arr('native_wngrid')),
-                                   list(arr('native_spectrum')),
-                                   list(bw), list(arr('binned_wnwidth'))))
-        if not np.allclose(arr('binned_spectrum'), rb, rtol=1e-11, atol=0):
+        nw = arr('native_wngrid')
+        rb = refs.ref_bin(list(nw), list(arr('native_spectrum')),
+                          list(bw), list(arr('binned_wnwidth')))
+        # bins strictly inside the stored native range (sub-range results leave
+        # some observation bins partly or wholly outside: C05 ground)
+        nb = refs.native_bins(list(nw))
+        inside = np.array([(c - w / 2 >= nb[1][0]) and (c + w / 2 <= nb[-2][1])
+                           and r is not None
+                           for c, w, r in zip(bw, arr('binned_wnwidth'), rb)])
+        rbv = np.array([r if r is not None else np.nan for r in rb])
+        if inside.any():
+            out.bump('steps', 'interior_bins_checked', int(inside.sum()))
+        if inside.any() and not np.allclose(arr('binned_spectrum')[inside],
+                                            rbv[inside], rtol=1e-11, atol=0):
             viol('spectrum', 'binned_spectrum:reference', 'stored binned '
                  'spectrum is not the overlap-weighted mean of the stored '
                  'native spectrum')
@@ -746,6 +810,13 @@ def _ctor_values(obj):
         return {'T_irr': obj.T_irr, 'kappa_irr': obj.kappa_ir,
                 'kappa_v1': obj.kappa_v1, 'kappa_v2': obj.kappa_v2,
                 'alpha': obj.alpha}
+    if n == 'Rodgers2000':
+        return {'layers': tuple(float(x) for x in obj._T_layers),
+                'corr': obj._tp_corr_length}
+    if n == 'TemperatureArray':
+        pp = getattr(obj, '_p_profile', None)
+        return {'values': tuple(float(x) for x in obj._tp_profile),
+                'p_points': () if pp is None else tuple(float(x) for x in pp)}
     if n == 'Planet':
         return {'mass': obj.mass, 'radius': obj.radius}
     if n == 'BlackbodyStar':
@@ -813,10 +884,23 @@ def check_reload(viol, out, fname, model, cfg):
             if not same:
                 viol('reload', 'param:%s.%s' % (type(a).__name__, k),
                      '%r written, %r after reload' % (x, y))
-    g1 = sorted((g.molecule, type(g).__name__, float(g._mix_ratio))
-                for g in model.chemistry._gases)
-    g2 = sorted((g.molecule, type(g).__name__, float(g._mix_ratio))
-                for g in m2.chemistry._gases)
+    def gas_key(g):
+        n = type(g).__name__
+        if n == 'ConstantGas':
+            v = (float(g._mix_ratio),)
+        elif n == 'TwoPointGas':
+            v = (float(g._mix_surface), float(g._mix_top))
+        elif n == 'ArrayGas':
+            v = tuple(float(x) for x in g._mix_ratio_array)
+        elif n == 'PowerGas':
+            v = tuple(None if x is None else float(x) for x in
+                      (g._mix_surface, g._alpha, g._beta, g._gamma)) + \
+                (g._profile_type,)
+        else:
+            v = ()
+        return (g.molecule, n, v)
+    g1 = sorted((gas_key(g) for g in model.chemistry._gases), key=repr)
+    g2 = sorted((gas_key(g) for g in m2.chemistry._gases), key=repr)
     if g1 != g2:
         viol('reload', 'gases', '%s vs %s' % (g1, g2))
     if list(model.chemistry._fill_gases) != list(m2.chemistry._fill_gases) or \
